@@ -1,5 +1,6 @@
 import DryocVerif.Proofs.Poly1305Main
 import DryocVerif.Proofs.Blake2bMain
+import DryocVerif.Proofs.Core
 /-
 C08 — incremental hash / MAC / signing equals the one-shot result for any chunking.
 -/
@@ -43,5 +44,25 @@ theorem generichash_chunks_eq_spec (outLen : Nat) (key : Bytes) (salt personal :
       generichashFinal (cs.foldl generichashUpdate st) outLen =
         .ok (Spec.Blake2b.hashSP outLen key (salt.getD []) (personal.getD []) cs.flatten) :=
   Proofs.Blake2b.generichash_inc_eq_spec outLen key salt personal cs ho hk hs hp hlen
+
+/-! ### HMAC-SHA-512-256 (`crypto_auth_init` / `_update` / `_final`)
+
+The incremental SHA-512 context is modelled as the list of bytes fed so far (`sha2`'s block buffering is
+that crate's code and is not modelled), so chunking-independence of dryoc's own wrapper is immediate. -/
+
+/-- any sequence of `crypto_auth_update` calls = one call on the concatenation -/
+theorem hmac_updates (st : Model.Core.HmacState) (cs : List Bytes) :
+    cs.foldl Model.Core.hmacUpdate st = Model.Core.hmacUpdate st cs.flatten :=
+  Proofs.Core.hmac_updates st cs
+
+/-- init; update c₁; …; update cₙ; final = the one-shot `crypto_auth` of the concatenation (any `H`) -/
+theorem hmac_chunks_eq_oneshot (H : Bytes → Bytes) (key : Bytes) (cs : List Bytes) :
+    Model.Core.hmacChunks H key cs = Model.Core.hmac H key cs.flatten :=
+  Proofs.Core.hmacChunks_eq H key cs
+
+/-- … and equals RFC 2104 HMAC-SHA-512-256 of the concatenation -/
+theorem hmac_chunks_eq_spec (key : Bytes) (hk : key.length = 32) (cs : List Bytes) :
+    Model.Core.hmacChunks Spec.Sha512.sha512 key cs = .ok (Spec.Hmac.hmacSha512256 key cs.flatten) := by
+  rw [Proofs.Core.hmacChunks_eq]; exact Proofs.Core.hmac_eq_spec_le key _ (by omega)
 
 end DryocVerif.Properties.C08
